@@ -65,8 +65,35 @@ contract(
     ensures={"fresh": "result >= old(alloc())", "fields": "result.type == 'network.ipv6' and result.start == 0 and result.end == len(ip) and result.parent is None and nchildren(result) == 0", "own": "result.own == result"},
     notes="ASSUMED: socket.inet_pton / ipaddress.IPv6Address raise only what parse_ipv6 turns into ValueError",
 )
-contract("multidecoder.decoders.network.normalize_path", props=["C12"], trusted=True, types={"path": "bytes"}, returns="tuple[bytes, str]",
-         notes="ASSUMED total (checked EXHAUSTIVELY against the dot-segment reference by the bounded stand-in of C12)")
+# normalize_path: the segment stack is a local list; proved here are the clauses of C12 that do not need a list-valued specification function -
+# totality, "labelled exactly when a segment was removed", "an absolute path stays absolute", no '.' / '..' left on the stack.  The exact
+# stack (which segments cancel which) is compared EXHAUSTIVELY with the dot-segment reference by the bounded stand-in of C12.
+DSEG = "unquote(path.split(b'/')[k]).replace(b'/', b'%2F')"
+contract(
+    "multidecoder.decoders.network.normalize_path",
+    props=["C12", "C01"],
+    types={"path": "bytes", "segments": "list[bytes]", "dotless": "list[bytes]"},
+    returns="tuple[bytes, str]",
+    requires={"non-empty": "len(path) > 0"},
+    ensures_each={},
+    comp_assume={},
+    loops={
+        1: Loop(
+            index="i",
+            inv={
+                "never-longer": "len(dotless) <= i",
+                "same-length-iff-no-dot-segment-so-far": "(len(dotless) == i) == (not exists(range(i), lambda k: segments[k] in (b'.', b'..')))",
+                "no-dot-segment-on-the-stack": "forall(range(len(dotless)), lambda k: dotless[k] != b'.' and dotless[k] != b'..')",
+                "root-stays": "implies(i >= 1 and segments[0] == b'', len(dotless) >= 1 and dotless[0] == b'')",
+                "first-is-first": "implies(i >= 1 and len(dotless) == i, dotless[0] == segments[0])",
+            },
+        )
+    },
+    ensures={
+        "labelled-exactly-when-a-segment-was-removed": "result[1] == ('url.dotpath' if exists(range(len(path.split(b'/'))), lambda k: " + DSEG + " in (b'.', b'..')) else '')",
+        "an-absolute-path-stays-absolute": "implies(path.startswith(b'/'), result[0].startswith(b'/'))",
+    },
+)
 
 AUTH_EACH = {
     "parentless": "node.parent is None",
